@@ -82,7 +82,8 @@ def gen_history(rng, uni, length, illformed=0.15):
             else:
                 ops.append(dict(op="bin", b=b, i=i, y=dict(kind="arr", j=j)))
         elif r < 0.38:
-            ops.append(dict(op="un", u=rng.choice(["neg", "abs", "sign"]), i=i))
+            u = rng.choice(["neg", "abs", "sign"])
+            ops.append(dict(op="un", u=u, i=i, inplace=(u != "neg" and rng.random() < 0.4)))
         elif r < 0.48:
             ops.append(dict(op="sum_to", i=i, pick=rng.random(), perm=rng.random(), bad=bad, style=rng.choice("LND")))
         elif r < 0.53:
@@ -236,6 +237,8 @@ def execute(uni, cop, pool):
             return a.maximum(y)
         return dict(add=operator.add, sub=operator.sub, mul=operator.mul, div=operator.truediv, pow=operator.pow)[b](a, y)
     if k == "un":
+        if cop.get("inplace"):
+            return {"abs": lambda: a.abs(inplace=True), "sign": lambda: a.sign(inplace=True)}[cop["u"]]()
         return {"neg": lambda: -a, "abs": lambda: abs(a), "sign": lambda: a.sign()}[cop["u"]]()
     if k == "sum_to":
         return a.sum_to(_pyargs(uni, cop["args"]))
@@ -318,7 +321,7 @@ def cq_hop(uni, c):
         y = f"(HArr {cq_nat(c['y']['j'])})" if c["y"]["kind"] == "arr" else f"(HNum {cq_Q(Fraction(c['y']['c']))})"
         return f"(HBin {BOP[c['b']]} {i} {y})"
     if k == "un":
-        return f"(HUn {UOP[c['u']]} {i})"
+        return f"(HUn {UOP[c['u']]} {i} {cq_bool(bool(c.get('inplace')))})"
     if k == "sum_to":
         return f"(HSumTo {i} {_cq_args(uni, c['args'])})"
     if k == "sum_over":
